@@ -7,22 +7,6 @@ namespace Asca
 /-- text is a list of characters (string literals do not reduce in the kernel) -/
 abbrev Str := List Char
 
-namespace Outcome
-variable {ε : Type}
-
-@[simp] theorem bind_ok {α β} (a : α) (f : α → Outcome ε β) : (Outcome.ok a >>= f) = f a := rfl
-@[simp] theorem bind_err {α β} (e : ε) (f : α → Outcome ε β) : ((Outcome.err e : Outcome ε α) >>= f) = .err e := rfl
-@[simp] theorem bind_panic {α β} (s : String) (f : α → Outcome ε β) : ((Outcome.panic s : Outcome ε α) >>= f) = .panic s := rfl
-@[simp] theorem bind_fuel {α β} (s : String) (f : α → Outcome ε β) : ((Outcome.outOfFuel s : Outcome ε α) >>= f) = .outOfFuel s := rfl
-@[simp] theorem pure_eq {α} (a : α) : (pure a : Outcome ε α) = .ok a := rfl
-
-instance : LawfulMonad (Outcome ε) := LawfulMonad.mk'
-  (id_map := by intro α x; cases x <;> rfl)
-  (pure_bind := by intros; rfl)
-  (bind_assoc := by intro α β γ x f g; cases x <;> rfl)
-
-end Outcome
-
 namespace Run
 
 /-- the components the runner calls -/
